@@ -293,8 +293,10 @@ cmp_loom_rank(struct loom *a, struct loom *b)
 		return -1;
 	if (id1 > id2)
 		return +1;
-	else
-		return 0;
+
+	/* Same minimum rank: order by name, so the result doesn't depend
+	 * on the order in which the streams were loaded */
+	return strcmp(a->id, b->id);
 }
 
 static void
